@@ -55,6 +55,9 @@ CHECKS = {
  "C05": ("exploration", "runtime monitoring: label-matrix oracle (value = label*1000+direction must arrive through the counterpart with the same label) over generated value shapes with many channel halves, 1-3 hops",
          "Held on N generated value journeys (nested lists/options/pairs/maps/variants with 0-12 halves of 11 kinds, re-sent over up to 3 connections, tiny credit configurations in 25%): every received half was wired to exactly its original counterpart (the diagonal of the label matrix), no half was lost, duplicated, cross-wired or left hanging at quiescence; doubly sent single-connection channels produced data or errors, never a hang.",
          "port exhaustion with wait=true is a wait by design and is not driven; lr halves travel one hop only (documented)", "DESIGN.md §3 C05", "rig+history"),
+ "C17": ("exploration", "runtime monitoring: interval-exclusion, no-stale-read and pending-at-quiescence oracles over lock histories recorded on a global logical clock under virtual time",
+         "Held on N seeded concurrent histories (owner + local clones + clones on a second endpoint with own or shared cache, guard hold times, commits and dropped write guards): write guards never overlapped any other guard, values never changed under a read guard, every read returned the initial or a committed value that was not stale, no uncommitted value became visible, the final value was the last commit, and nothing was pending at quiescence once all guards were released.",
+         "single-thread virtual-time leg; logical clock at the client boundary; loss of a lock holder's connection is not driven yet", "DESIGN.md §3 C17", "rig+history"),
 }
 
 NOT_YET = "check not yet implemented in this commit (DESIGN.md §6a gives the order of implementation)"
